@@ -1131,7 +1131,14 @@ func main() {
 		enc := json.NewEncoder(out)
 		r := gen.FromEnv(1113)
 		for i := 0; i < k; i++ {
-			_ = enc.Encode(genReuseCase(r.Fork(), i))
+			func() {
+				defer func() {
+					if x := recover(); x != nil { // a panic ends the case, not the run
+						_ = enc.Encode(ReuseCase{Reuse: i, Points: []ReusePoint{}, Oracle: []string{fmt.Sprintf("panic: %v", x)}})
+					}
+				}()
+				_ = enc.Encode(genReuseCase(r.Fork(), i))
+			}()
 		}
 		return
 	}
@@ -1142,7 +1149,14 @@ func main() {
 		enc := json.NewEncoder(out)
 		r := gen.FromEnv(1112)
 		for i := 0; i < k; i++ {
-			_ = enc.Encode(genAltCase(r.Fork(), i))
+			func() {
+				defer func() {
+					if x := recover(); x != nil { // a panic ends the case, not the run
+						_ = enc.Encode(AltCase{Alt: i, Kind: "panic", Points: []AltPoint{}, Oracle: []string{fmt.Sprintf("panic: %v", x)}})
+					}
+				}()
+				_ = enc.Encode(genAltCase(r.Fork(), i))
+			}()
 		}
 		return
 	}
